@@ -194,13 +194,14 @@ command Increment {
     seal { return seal_basic(payload) }
     open { return open_basic(payload, envelope) }
     policy {
-        let stuff = unwrap query Stuff[a: this.key_a]=>{x: ?}
+        let stuff = query Stuff[a: this.key_a]=>{x: ?} or recall missing()
         let new_x = saturating_add(stuff.x, this.value)
         finish {
             update Stuff[a: this.key_a]=>{x: stuff.x} to {x: new_x}
             emit StuffHappened { a: this.key_a, x: new_x }
         }
     }
+    recall missing() {}
 }
 
 action set_note(k int, text string, blob bytes) {
@@ -385,12 +386,13 @@ fn err_name(e: &ClientError) -> String {
     }
 }
 
-/// observable state of a replica: heads, facts, number of committed effects
+/// observable state of a replica: heads and facts (committed effects are judged separately: a
+/// `commit` on a multi-head graph re-braids the heads and re-emits the effects of commands the
+/// replica already holds, whether or not the transaction added anything)
 #[derive(Clone, Debug, PartialEq, Eq)]
 struct Snap {
     heads: Vec<CmdId>,
     facts: Vec<String>,
-    effects: Vec<String>,
 }
 
 impl Rep {
@@ -402,9 +404,8 @@ impl Rep {
     }
 
     fn snap(&mut self, graph: GraphId) -> Snap {
-        let effects = self.sink.committed.iter().map(show_effect).collect();
         match self.client.provider().get_storage(graph) {
-            Err(_) => Snap { heads: vec![], facts: vec!["<nostore>".into()], effects },
+            Err(_) => Snap { heads: vec![], facts: vec!["<nostore>".into()] },
             Ok(s) => {
                 let mut heads: Vec<CmdId> = s.get_heads().map(|h| h.iter().map(|la| la.id).collect()).unwrap_or_default();
                 heads.sort();
@@ -431,7 +432,7 @@ impl Rep {
                     }
                 }
                 facts.sort();
-                Snap { heads, facts, effects }
+                Snap { heads, facts }
             }
         }
     }
@@ -514,7 +515,7 @@ fn encode_message(cmds: &[WCmd], index: u64) -> Vec<u8> {
 }
 
 /// the mirror's reading of a real response message
-fn decode_message(bytes: &[u8]) -> Result<(WResp, Vec<WCmd>), String> {
+fn decode_message(bytes: &[u8], strict: bool) -> Result<(WResp, Vec<WCmd>), String> {
     let (msg, rest): (WResp, &[u8]) = postcard::take_from_bytes(bytes).map_err(|e| format!("mirror decode: {e}"))?;
     let mut cmds = vec![];
     if let WResp::SyncResponse { commands, .. } = &msg {
@@ -533,7 +534,7 @@ fn decode_message(bytes: &[u8]) -> Result<(WResp, Vec<WCmd>), String> {
             at += l;
             cmds.push(WCmd { id: m.id, prio: m.priority.clone(), parent: m.parent, policy, data });
         }
-        if at != rest.len() {
+        if at != rest.len() && strict {
             return Err("trailing bytes after the last command".into());
         }
     }
@@ -689,7 +690,7 @@ fn gen_action(rng: &mut Rng, w: &mut GenState, allow_finalize: bool) -> (&'stati
                 w.next_k += 1;
                 const TEXTS: &[&str] = &["", "a", "hello", "Zürich ✓", "0123456789abcdef0123456789abcdef", "note with spaces"];
                 let n = *rng.pick(&[0usize, 1, 2, 31, 32, 33, 127, 128, 129, 300]);
-                return ("set_note", vec![Value::Int(w.next_k), text(rng.pick(TEXTS)), Value::Bytes(rng.bytes(n))]);
+                return ("set_note", vec![Value::Int(w.next_k), text(*rng.pick(TEXTS)), Value::Bytes(rng.bytes(n))]);
             }
             9 if allow_finalize => {
                 w.next_n += 1;
@@ -762,7 +763,7 @@ fn build_world(machine: &Machine, seed: u64, shape: u64, len: usize) -> Result<W
     let msgs = sync_session(&mut b0, &mut a, graph)?;
     let mut shipped: Vec<WCmd> = vec![];
     for m in &msgs {
-        let (msg, cmds) = decode_message(m)?;
+        let (msg, cmds) = decode_message(m, true)?;
         // the mirror must be the real format: re-encoding reproduces the message byte for byte
         if let WResp::SyncResponse { session_id, response_index, .. } = &msg {
             let metas: Vec<WMeta> = cmds
@@ -902,9 +903,13 @@ fn mutations(w: &World, i: usize, rng: &mut Rng, all: bool) -> Vec<Mutation> {
     let h = &w.cmds[i];
     let c = &h.w;
     let mut out: Vec<Mutation> = vec![];
+    let is_merge = h.signed.is_none();
     let mut push = |class: &str, detail: String, m: WCmd| {
         if m != *c {
-            out.push((class.to_string(), detail, m));
+            // every change of a merge command is its own class family (merge commands carry no
+            // signature; see notes/C35.md)
+            let class = if is_merge && !class.starts_with("merge-") { format!("merge:{class}") } else { class.to_string() };
+            out.push((class, detail, m));
         }
     };
     let others: Vec<usize> = (0..w.cmds.len()).filter(|j| *j != i).collect();
@@ -931,12 +936,14 @@ fn mutations(w: &World, i: usize, rng: &mut Rng, all: bool) -> Vec<Mutation> {
                     WCmd { parent: Prior::Single(Address { id: flip_id(p.id, at, 1 << rng.below(8)), max_cut: p.max_cut }), ..c.clone() },
                 );
             }
+            // (values whose successor overflows u64 are left to C18: `Command::max_cut` turns
+            // them into `Bug`, which panics in debug builds — see notes/C35.md)
             for (what, mc) in [
                 ("+1", p.max_cut.get() + 1),
-                ("-1", p.max_cut.get().wrapping_sub(1)),
+                ("-1", p.max_cut.get().saturating_sub(1)),
                 ("0", 0),
                 ("+1000", p.max_cut.get() + 1000),
-                ("max", u64::MAX - 1),
+                ("huge", 1u64 << 62),
             ] {
                 push(
                     "parent-maxcut",
@@ -1259,7 +1266,7 @@ struct Described {
     dup: bool,
 }
 
-fn describe(w: &World, have: &[bool], store: bool, m: &WCmd) -> Described {
+fn describe(w: &World, have: &[bool], store: bool, m: &WCmd, tag: &str) -> Described {
     let held = |a: &Address| -> Option<usize> {
         w.cmds.iter().position(|h| h.w.id == a.id).filter(|j| have[*j] && w.cmds[*j].w.address() == *a)
     };
@@ -1302,9 +1309,11 @@ fn describe(w: &World, have: &[bool], store: bool, m: &WCmd) -> Described {
     };
     if let Prior::Merge(l, r) = m.parent {
         // honest merge: same id and parents as the shipped one
-        authentic = w.cmds.iter().any(|h| h.w.id == m.id && h.w.parent == m.parent) && held(&l).is_some() && held(&r).is_some();
+        authentic = w.cmds.iter().any(|h| h.signed.is_none() && h.w.id == m.id && h.w.parent == m.parent && h.w.prio == m.prio && h.w.data == m.data)
+            && held(&l).is_some()
+            && held(&r).is_some();
     }
-    let req = format!("recv {st} g{gid} p{pol} {} {par} {} {data}", w.id_tok(&m.id), prio_tok(&m.prio));
+    let req = format!("recv {tag} {st} g{gid} p{pol} {} {par} {} {data}", w.id_tok(&m.id), prio_tok(&m.prio));
     Described { req, authentic: authentic && !dup, dup }
 }
 
@@ -1338,18 +1347,35 @@ fn prefix_replica(w: &World, i: usize, salt: u64) -> Rep {
 struct Ctx<'a> {
     rec: &'a mut Recorder,
     w: &'a World,
+    /// first request line of the case (rebuilds the honest world on replay)
+    case_line: String,
+    /// the `recv <i>.<n> …` line of the delivery being judged (selects it on replay)
+    cur: String,
+}
+
+impl Ctx<'_> {
+    /// oracle failure with the minimal replayable input: the case line + the delivery's line
+    fn fail(&mut self, what: String) {
+        let input = vec![self.case_line.clone(), self.cur.clone()];
+        self.rec.oracle_fail_with(what, input);
+    }
 }
 
 /// Deliver the mutated command `m` (a mutation of command `i`) alone to `b`, which holds the
 /// honest prefix `0..i`.  Returns true when `b` is still in the honest prefix state.
-fn experiment(cx: &mut Ctx<'_>, b: &mut Rep, i: usize, class: &str, detail: &str, m: &WCmd) -> bool {
+fn experiment(cx: &mut Ctx<'_>, b: &mut Rep, i: usize, n: usize, class: &str, detail: &str, m: &WCmd) -> bool {
     let w = cx.w;
     let have: Vec<bool> = (0..w.cmds.len()).map(|j| j < i).collect();
-    let d = describe(w, &have, i > 0, m);
+    let d = describe(w, &have, i > 0, m, &format!("{i}.{n}"));
+    cx.cur = d.req.clone();
     let wire = encode_message(&[m.clone()], 0);
     let before = b.snap(w.graph);
     let fx_before = b.sink.committed.len();
+    let np = cx.rec.panics.len();
     let out = b.deliver(w.graph, &wire, 0, &mut cx.rec.panics);
+    for p in cx.rec.panics[np..].iter_mut() {
+        *p = format!("command {i}, field class {class} [{detail}]: {p}");
+    }
     let after = b.snap(w.graph);
     let line = outcome_line(&out);
     cx.rec.line(d.req.clone(), line.clone());
@@ -1361,9 +1387,13 @@ fn experiment(cx: &mut Ctx<'_>, b: &mut Rep, i: usize, class: &str, detail: &str
     }));
     let accepted = matches!(out, Outcome::Added(n) if n > 0);
     let what = format!("command {i} ({}), field class {class} [{detail}]", w.cmds[i].signed.as_ref().map(|s| s.kind.as_str()).unwrap_or("merge"));
-    let unsigned_field = class == "policy-field" || class == "data-trailing";
+    if cx.rec.panics.len() > np {
+        let msg = cx.rec.panics[np].clone();
+        cx.fail(format!("PANIC in the real code while receiving {what}: {}", &msg[..msg.len().min(400)]));
+    }
+    let unsigned_field = class.ends_with("policy-field") || class == "data-trailing";
     if accepted && !d.authentic {
-        cx.rec.oracle_fail(format!(
+        cx.fail(format!(
             "ACCEPTED a command changed in transit: {what}; outcome {out:?}; request `{}`; wire {}",
             d.req,
             hex(&wire)
@@ -1380,24 +1410,40 @@ fn experiment(cx: &mut Ctx<'_>, b: &mut Rep, i: usize, class: &str, detail: &str
         return false;
     }
     if d.authentic && !accepted {
-        cx.rec.oracle_fail(format!("REJECTED an authentic command: {what}; outcome {out:?}; request `{}`", d.req));
+        cx.fail(format!("REJECTED an authentic command: {what}; outcome {out:?}; request `{}`", d.req));
     }
-    // not accepted: no trace
+    // not accepted: no trace.  Effects: nothing committed after the delivery may belong to the
+    // delivered id (effects of commands the replica already holds may be re-emitted by the
+    // braid a multi-head commit runs)
+    let new_fx: Vec<&VmEffect> = b.sink.committed[fx_before..].iter().collect();
+    let foreign: Vec<String> = new_fx
+        .iter()
+        .filter(|e| !w.cmds[..i].iter().any(|h| h.w.id == e.command))
+        .map(|e| show_effect(e))
+        .collect();
+    if !foreign.is_empty() {
+        cx.fail(format!(
+            "a command that was NOT accepted produced committed effects: {what}; outcome {out:?}; effects {foreign:?}; wire {}",
+            hex(&wire)
+        ));
+        return false;
+    }
+    if !new_fx.is_empty() {
+        cx.rec.count("re-emitted-effects-of-held-commands");
+    }
     if before != after {
-        cx.rec.oracle_fail(format!(
-            "a command that was NOT accepted changed the replica: {what}; outcome {out:?}; heads {:?} -> {:?}; facts {} -> {}; effects {} -> {}; wire {}",
+        cx.fail(format!(
+            "a command that was NOT accepted changed the replica: {what}; outcome {out:?}; heads {:?} -> {:?}; facts {} -> {}; wire {}",
             before.heads.iter().map(|h| hex(h.as_bytes())[..8].to_string()).collect::<Vec<_>>(),
             after.heads.iter().map(|h| hex(h.as_bytes())[..8].to_string()).collect::<Vec<_>>(),
             before.facts.len(),
             after.facts.len(),
-            fx_before,
-            b.sink.committed.len(),
             hex(&wire)
         ));
         return false;
     }
     if !d.dup && b.exists(w.graph, m.address()) {
-        cx.rec.oracle_fail(format!("a command that was NOT accepted is locatable afterwards (command_exists): {what}; wire {}", hex(&wire)));
+        cx.fail(format!("a command that was NOT accepted is locatable afterwards (command_exists): {what}; wire {}", hex(&wire)));
         return false;
     }
     true
@@ -1412,14 +1458,14 @@ fn finish_honestly(cx: &mut Ctx<'_>, b: &mut Rep, i: usize, what: &str) {
         match b.deliver(w.graph, &encode_message(chunk, 0), 0, &mut cx.rec.panics) {
             Outcome::Added(n) => added += n,
             o => {
-                cx.rec.oracle_fail(format!("after {what}: the honest remainder was not accepted: {o:?}"));
+                cx.fail(format!("after {what}: the honest remainder was not accepted: {o:?}"));
                 return;
             }
         }
     }
     let s = b.snap(w.graph);
     if added != rest.len() || s.heads != w.final_a.heads || s.facts != w.final_a.facts {
-        cx.rec.oracle_fail(format!(
+        cx.fail(format!(
             "after {what}: delivering the honest remainder does not reach A's state (added {added}/{}; heads equal: {}; facts equal: {})",
             rest.len(),
             s.heads == w.final_a.heads,
@@ -1439,18 +1485,22 @@ fn batch_experiment(cx: &mut Ctx<'_>, i: usize, k: usize, class: &str, detail: &
         return;
     }
     let have: Vec<bool> = (0..w.cmds.len()).map(|j| j < i).collect();
-    let d = describe(w, &have, i > 0, m);
+    let d = describe(w, &have, i > 0, m, "-");
     let wire = encode_message(&batch, 0);
+    let np = cx.rec.panics.len();
     let out = b.deliver(w.graph, &wire, 0, &mut cx.rec.panics);
+    for p in cx.rec.panics[np..].iter_mut() {
+        *p = format!("batch with command {i}, field class {class} [{detail}]: {p}");
+    }
     cx.rec.count("batch");
     let after = b.snap(w.graph);
-    let what = format!("batch [{k}..{i}) + mutated command {i} ({class} [{detail}]) + rest");
+    let what = format!("batch [{k}..{i}) + command {i}, field class {class} [{detail}] + rest");
     match out {
         Outcome::Added(n) if d.authentic || d.dup => {
             let _ = n;
         }
         Outcome::Added(n) => {
-            cx.rec.oracle_fail(format!("{what}: add_commands returned Ok({n}) although the batch contains a changed command; wire {}", hex(&wire)));
+            cx.fail(format!("{what}: add_commands returned Ok({n}) although the batch contains a changed command; wire {}", hex(&wire)));
             return;
         }
         _ => {}
@@ -1459,7 +1509,7 @@ fn batch_experiment(cx: &mut Ctx<'_>, i: usize, k: usize, class: &str, detail: &
         // exactly the honest commands before the changed one are in
         let want = &w.prefix[i];
         if after.heads != want.heads || after.facts != want.facts {
-            cx.rec.oracle_fail(format!(
+            cx.fail(format!(
                 "{what}: after the rejected batch the replica is not in the state of the honest prefix (heads equal: {}; facts equal: {}); wire {}",
                 after.heads == want.heads,
                 after.facts == want.facts,
@@ -1468,7 +1518,7 @@ fn batch_experiment(cx: &mut Ctx<'_>, i: usize, k: usize, class: &str, detail: &
             return;
         }
         if b.exists(w.graph, m.address()) && !d.dup {
-            cx.rec.oracle_fail(format!("{what}: the changed command is locatable after the batch"));
+            cx.fail(format!("{what}: the changed command is locatable after the batch"));
             return;
         }
         finish_honestly(cx, &mut b, i, &what);
@@ -1478,7 +1528,7 @@ fn batch_experiment(cx: &mut Ctx<'_>, i: usize, k: usize, class: &str, detail: &
 // ------------------------------------------------------------------------------------ cases
 
 /// request lines that rebuild a case: `case <seed> <shape> <len>` then `def`/`seal` lines, then
-/// one `mut <i> <n>` selector before each `recv` (the n-th mutation of command i)
+/// `recv <i>.<n> …` lines (the n-th change of command i; the tag selects it on replay)
 fn run_case(rec: &mut Recorder, machine: &Machine, seed: u64, shape: u64, len: usize, all: bool, only: Option<&[(usize, usize)]>) {
     rec.begin_case();
     rec.line(format!("case {seed} {shape} {len} {}", all as u8), "ok");
@@ -1540,8 +1590,7 @@ fn run_case(rec: &mut Recorder, machine: &Machine, seed: u64, shape: u64, len: u
         ));
     }
 
-    let mut cx = Ctx { rec, w: &w };
-    let mut brng = Rng::new(seed ^ 0xBA7C);
+    let mut cx = Ctx { rec, w: &w, case_line: format!("case {seed} {shape} {len} {}", all as u8), cur: String::new() };
     for i in 0..w.cmds.len() {
         let mut mrng = Rng::new(seed ^ (i as u64).wrapping_mul(0x9E37_79B9));
         let muts = mutations(&w, i, &mut mrng, all);
@@ -1551,7 +1600,7 @@ fn run_case(rec: &mut Recorder, machine: &Machine, seed: u64, shape: u64, len: u
             let mut bh = prefix_replica(&w, i, 0x1000 + i as u64);
             let honest = w.cmds[i].w.clone();
             let have: Vec<bool> = (0..w.cmds.len()).map(|j| j < i).collect();
-            let d = describe(&w, &have, i > 0, &honest);
+            let d = describe(&w, &have, i > 0, &honest, "h");
             let out = bh.deliver(w.graph, &encode_message(&[honest.clone()], 0), 0, &mut cx.rec.panics);
             cx.rec.line(d.req.clone(), outcome_line(&out));
             cx.rec.count("class:honest");
@@ -1563,7 +1612,7 @@ fn run_case(rec: &mut Recorder, machine: &Machine, seed: u64, shape: u64, len: u
                 cx.rec.oracle_fail(format!("honest command {i}: state differs from the honest prefix state"));
             }
             // replaying it is a duplicate: Ok(0), nothing changes
-            let d2 = describe(&w, &(0..w.cmds.len()).map(|j| j <= i).collect::<Vec<_>>(), true, &honest);
+            let d2 = describe(&w, &(0..w.cmds.len()).map(|j| j <= i).collect::<Vec<_>>(), true, &honest, "h");
             let out2 = bh.deliver(w.graph, &encode_message(&[honest], 0), 0, &mut cx.rec.panics);
             cx.rec.line(d2.req.clone(), outcome_line(&out2));
             cx.rec.count("class:honest-replayed");
@@ -1577,18 +1626,20 @@ fn run_case(rec: &mut Recorder, machine: &Machine, seed: u64, shape: u64, len: u
                     continue;
                 }
             }
-            cx.rec.line(format!("mut {i} {n}"), "ok");
-            let clean = experiment(&mut cx, &mut b, i, class, detail, m);
+            let clean = experiment(&mut cx, &mut b, i, n, class, detail, m);
+            // which deliveries are followed up / repeated inside a batch is a function of
+            // (seed, i, n) only, so that a replay of selected lines behaves identically
+            let pick = fnv(&format!("{seed}/{i}/{n}"));
             if !clean {
                 b = prefix_replica(&w, i, (i as u64) << 8 | n as u64);
-            } else if brng.chance(1, 12) {
+            } else if pick % 12 == 0 {
                 // the replica that rejected it goes on to accept the honest remainder
                 let what = format!("rejecting command {i} {class} [{detail}]");
                 finish_honestly(&mut cx, &mut b, i, &what);
                 b = prefix_replica(&w, i, (i as u64) << 8 | n as u64 | 0x4000);
             }
-            if i > 0 && brng.chance(1, if all { 6 } else { 15 }) {
-                let k = brng.below(i as u64 + 1) as usize;
+            if i > 0 && (pick >> 8) % (if all { 6 } else { 12 }) == 0 {
+                let k = ((pick >> 20) % (i as u64 + 1)) as usize;
                 batch_experiment(&mut cx, i, k, class, detail, m);
             }
         }
@@ -1599,7 +1650,7 @@ fn malformed_stream(rec: &mut Recorder, machine: &Machine, seed: u64) {
     // malformed wire: random bytes and truncated real messages handed to the real requester +
     // add_commands on a replica holding an honest prefix — nothing may be accepted or changed
     rec.begin_case();
-    rec.line(format!("case {seed} 0 3 0"), "ok");
+    rec.line(format!("case {seed} 9 3 0"), "ok");
     let w = match build_world(machine, seed, 0, 3) {
         Ok(w) => w,
         Err(e) => {
@@ -1619,13 +1670,19 @@ fn malformed_stream(rec: &mut Recorder, machine: &Machine, seed: u64) {
         let mut wire = good.clone();
         match t % 4 {
             0 => wire.truncate(rng.below(good.len() as u64) as usize),
-            1 => wire = rng.bytes(rng.below(200) as usize),
+            1 => {
+                let n = rng.below(200) as usize;
+                wire = rng.bytes(n);
+            }
             2 => {
                 // a lying length field: flip a byte in the message header region
                 let at = rng.below(24.min(good.len() as u64)) as usize;
                 wire[at] ^= 1 << rng.below(8);
             }
-            _ => wire.extend(rng.bytes(1 + rng.below(8) as usize)),
+            _ => {
+                let n = 1 + rng.below(8) as usize;
+                wire.extend(rng.bytes(n));
+            }
         }
         let out = b.deliver(w.graph, &wire, 0, &mut rec.panics);
         rec.count(&format!("malformed:{}", match &out {
@@ -1635,7 +1692,7 @@ fn malformed_stream(rec: &mut Recorder, machine: &Machine, seed: u64) {
         let accepted = matches!(out, Outcome::Added(n) if n > 0);
         if accepted {
             // only acceptable if what the requester parsed IS the honest command
-            let parsed_ok = decode_message(&wire).map(|(_, c)| c.len() == 1 && c[0] == w.cmds[i].w).unwrap_or(false);
+            let parsed_ok = decode_message(&wire, false).map(|(_, c)| c.len() == 1 && c[0] == w.cmds[i].w).unwrap_or(false);
             if !parsed_ok {
                 rec.oracle_fail(format!("malformed wire message accepted: {}", hex(&wire)));
             }
@@ -1649,18 +1706,20 @@ fn malformed_stream(rec: &mut Recorder, machine: &Machine, seed: u64) {
 
 fn main() {
     let args = Args::parse();
+    let machine = compile_machine();
     vh::quiet_panics();
     let mut rec = Recorder::new(&args.out);
-    let machine = compile_machine();
 
     if let Some(path) = &args.replay {
-        // request lines of one case: `case seed shape len all`, then `mut i n` selectors
+        // request lines of one case: `case seed shape len all`, then `recv i.n …` selectors
         let lines = vh::read_replay_input(path);
         let mut cur: Option<(u64, u64, usize, bool)> = None;
         let mut sel: Vec<(usize, usize)> = vec![];
         let mut flush = |cur: &Option<(u64, u64, usize, bool)>, sel: &Vec<(usize, usize)>, rec: &mut Recorder| {
             if let Some((seed, shape, len, all)) = cur {
-                if sel.is_empty() {
+                if *shape == 9 {
+                    malformed_stream(rec, &machine, *seed);
+                } else if sel.is_empty() {
                     run_case(rec, &machine, *seed, *shape, *len, *all, None);
                 } else {
                     run_case(rec, &machine, *seed, *shape, *len, *all, Some(sel));
@@ -1675,9 +1734,12 @@ fn main() {
                     sel.clear();
                     cur = Some((seed.parse().unwrap_or(1), shape.parse().unwrap_or(0), len.parse().unwrap_or(4), *all == "1"));
                 }
-                ["mut", i, n] => {
-                    if let (Ok(i), Ok(n)) = (i.parse(), n.parse()) {
-                        sel.push((i, n));
+                ["recv", tag, ..] => {
+                    // `recv <i>.<n> …`: the n-th change of command i
+                    if let Some((i, n)) = tag.split_once('.') {
+                        if let (Ok(i), Ok(n)) = (i.parse(), n.parse()) {
+                            sel.push((i, n));
+                        }
                     }
                 }
                 _ => {}
